@@ -174,6 +174,24 @@ ROUND3.update({
              "missed: no such link was generated; link kind `mixed` added to the session generator"),
 })
 
+ROUND3.update({
+    "C01f": ("RoiSubsetState.copy is rebuilt through the constructor and no longer carries the pre-transform",
+             "a 2-d region selection with a pre-transform used inside a composite, an edit mode or a paste",
+             "caught"),
+    "C05f": ("MultiOrState.to_mask copies the first member's mask only if it is read-only, then or-s into it in place",
+             "a many-way 'or' whose first member is a memoised state object that is also another subset's state",
+             "missed by C05 (no state object was shared between selections; C01 catches the same mechanism): a group whose MultiOrState keeps the first group's state object as first member added"),
+    "C08e": ("VertexROIBase.reset no longer resets theta",
+             "a polygon rotated, emptied with reset(), drawn again with add_point and rotated again",
+             "missed: region objects were never emptied and redrawn; added for polygons (compared with a new polygon of the same vertices)"),
+    "C10e": ("Data.compute_histogram nudges the upper limit before instead of after taking log10",
+             "a log-space histogram whose upper limit equals a data value of magnitude >= 1e4 or <= 1e-5",
+             "missed: values spanned few decades; `log_histograms_wide` (1e-12 .. 1e12, limits on data values, totals and the upper-limit sample asserted) added"),
+    "C12e": ("the FunctionType loader resolves the stored path without the rename table",
+             "a function record (link function, data factory) naming the function's old location",
+             "missed: old names were resolved but no function record was loaded; every renamed function is now loaded as a FunctionType record through GlueUnSerializer"),
+})
+
 sweep = {}
 if len(sys.argv) > 1 and os.path.exists(sys.argv[1]):
     for line in open(sys.argv[1]):
